@@ -105,7 +105,7 @@ def extracted_rt(repo):
 
 class C20(Prop):
     id = "C20"
-    props_file = ["Props/C20.v", "Props/C20_Bridge.v"]
+    props_file = ["Props/C20.v", "Props/C20_Bridge.v", "Props/C20_Examples.v"]
     coq_imports = ["From ONL Require Import Rt.Realtime."]
     n_quick = 400
     n_thorough = 10000
